@@ -13,6 +13,7 @@ import (
 	"time"
 
 	"github.com/IBM/TSS/msg"
+	"github.com/IBM/TSS/threshold"
 	tss "github.com/IBM/TSS/types"
 
 	"verifharness/backend"
@@ -38,9 +39,9 @@ func jitter(seed int64) func(simnet.Link) {
 }
 
 func unitC20core(e common.Env, p *common.Part) {
-	p.Rule = "race-detector build; real Loud/Silent schemes with scripted backends on the simulated network in concurrent mode (one dispatcher goroutine per link, PRNG micro-delays of 20..150 us and yields); scenarios: staggered first calls (peers' traffic reaches a node before and while its first KeyGen/Sign sets up), duplicated transmissions, 2-3 sessions at once on different topics, SetStoredData followed by Sign from another goroutine, cancelled sessions followed by new ones, key generations that complete while three signing sessions on other topics synchronise, four goroutines per node calling KeyGen and Sign on one scheme object with contexts that are over or end within microseconds, the synchronisation traffic of a finished key generation re-sent continuously from its origins while further key generations start (stale queries and announcements with valid tags reach a node before and while its Synchronize sets up); repeated because reports vary per run; distinct key = (scenario, repetition, delivery-order hash); non-trivial when >=2 dispatcher goroutines were active"
+	p.Rule = "race-detector build; real Loud/Silent schemes with scripted backends on the simulated network in concurrent mode (one dispatcher goroutine per link, PRNG micro-delays of 20..150 us and yields); scenarios: staggered first calls (peers' traffic reaches a node before and while its first KeyGen/Sign sets up), duplicated transmissions, 2-3 sessions at once on different topics, SetStoredData followed by Sign from another goroutine, cancelled sessions followed by new ones, key generations that complete while three signing sessions on other topics synchronise, signing sessions cancelled while one signer's continuation is held between the registration of its handlers and its second synchronisation (the continuation is let go after the calls have returned), four goroutines per node calling KeyGen and Sign on one scheme object with contexts that are over or end within microseconds, the synchronisation traffic of a finished key generation re-sent continuously from its origins while further key generations start (stale queries and announcements with valid tags reach a node before and while its Synchronize sets up); repeated because reports vary per run; distinct key = (scenario, repetition, delivery-order hash); non-trivial when >=2 dispatcher goroutines were active"
 	reps := e.Pick(12, 120)
-	scen := []string{"staggered-keygen-loud", "staggered-keygen-silent", "sign-concurrent-topics", "duplicates", "setdata-then-sign", "cancel-then-retry", "msgbox-with-ticking-clock", "stale-sync-flood-loud", "stale-sync-flood-silent", "api-calls-from-several-goroutines", "keygen-while-signing-on-other-topics"}
+	scen := []string{"staggered-keygen-loud", "staggered-keygen-silent", "sign-concurrent-topics", "duplicates", "setdata-then-sign", "cancel-then-retry", "msgbox-with-ticking-clock", "stale-sync-flood-loud", "stale-sync-flood-silent", "api-calls-from-several-goroutines", "keygen-while-signing-on-other-topics", "sign-cancelled-between-its-synchronisations"}
 	idx := 0
 	for r := 0; r < reps; r++ {
 		for _, sc := range scen {
@@ -221,6 +222,47 @@ func runC20core(sc string, rep int, rng *rand.Rand) (string, int) {
 		}
 		close(stop)
 		fw.Wait()
+	case "sign-cancelled-between-its-synchronisations":
+		// the first signer to have registered the handlers of its session is held there (verif point), every caller's context is
+		// cancelled, the calls return and clean up meanwhile, and 2 ms later the continuation is let go - without waiting for the calls, so
+		// that whatever the call's clean-up and the continuation share is accessed from both sides with no ordering between them
+		for _, u := range ids {
+			c.Schemes[u].SetStoredData([]byte("share-of-x"))
+		}
+		for round := 0; round < 3; round++ {
+			var parked int32
+			release := make(chan struct{})
+			threshold.SetVerifHook(func(pt string) {
+				if (pt == "sign.handlersRegistered" || pt == "sign.afterPrepare") && atomic.CompareAndSwapInt32(&parked, 0, 1) {
+					<-release
+				}
+			})
+			cx, cn := context.WithCancel(ctx)
+			t := fmt.Sprintf("scb-%d-%d", rep, round)
+			if silent {
+				c.SetPick(t, ids)
+			}
+			var sw sync.WaitGroup
+			for _, u := range ids {
+				u := u
+				sw.Add(1)
+				go func() {
+					defer sw.Done()
+					c.Schemes[u].Sign(cx, []byte("digest-0123456789abcdef0123456789"), t)
+				}()
+			}
+			deadline := time.Now().Add(500 * time.Millisecond)
+			for atomic.LoadInt32(&parked) == 0 && time.Now().Before(deadline) {
+				time.Sleep(100 * time.Microsecond)
+			}
+			cn()
+			// no waiting for the calls here: that would order their clean-up before the continuation's next steps
+			time.Sleep(2 * time.Millisecond)
+			close(release)
+			sw.Wait()
+			time.Sleep(2 * time.Millisecond)
+			threshold.SetVerifHook(func(string) {})
+		}
 	case "keygen-while-signing-on-other-topics":
 		// key generations that COMPLETE while the synchronisation traffic of signing sessions on other topics is being dispatched:
 		// whatever a continuation does to the shared tables on its way out runs concurrently with the dispatch of that traffic
